@@ -1,0 +1,301 @@
+//go:build verif
+
+// Copyright Istio Authors
+//
+// Licensed under the Apache License, Version 2.0 (the "License");
+// you may not use this file except in compliance with the License.
+// You may obtain a copy of the License at
+//
+//     http://www.apache.org/licenses/LICENSE-2.0
+//
+// Unless required by applicable law or agreed to in writing, software
+// distributed under the License is distributed on an "AS IS" BASIS,
+// WITHOUT WARRANTIES OR CONDITIONS OF ANY KIND, either express or implied.
+// See the License for the specific language governing permissions and
+// limitations under the License.
+
+package xds
+
+import (
+	"istio.io/istio/pilot/pkg/model"
+	"istio.io/istio/pkg/config/schema/kind"
+	"istio.io/istio/pkg/verif"
+)
+
+// ---------------------------------------------------------------------------------------------
+// C01 / C02: the push decisions for EDS, NDS, RDS and LDS as functions of request and proxy
+// ---------------------------------------------------------------------------------------------
+
+// common front: ztunnel never, a missing or forced request always
+func decidedUpFront(req *model.PushRequest, proxy *model.Proxy) (bool, bool) {
+	if proxy.Type == model.Ztunnel {
+		return false, true
+	}
+	if req == nil || req.Forced {
+		return true, true
+	}
+	return false, false
+}
+
+func edsDecision(req *model.PushRequest, proxy *model.Proxy) bool {
+	if d, ok := decidedUpFront(req, proxy); ok {
+		return d
+	}
+	if proxy.Type == model.Waypoint && cdsWaypointRule(req, proxy) {
+		return true
+	}
+	return verif.Exists(func(k model.ConfigKey) bool { return cuHas(req, k) && !skippedEdsConfigs.Contains(k.Kind) })
+}
+
+//verif:contract edsNeedsPush
+//verif:prop C01 C02
+func ctEdsNeedsPush(req *model.PushRequest, proxy *model.Proxy) {
+	verif.Requires("proxy-present", proxy != nil)
+	push := edsNeedsPush(req, proxy)
+	verif.Ensures("decision", push == verif.Old(func() bool { return edsDecision(req, proxy) }))
+	verif.Ensures("forced-always-pushes", req == nil || !verif.Old(func() bool { return req.Forced }) || proxy.Type == model.Ztunnel || push)
+	verif.Ensures("input-request-untouched", req == nil || model.VerifRequestUntouched(req))
+}
+
+//verif:invariant edsNeedsPush 1
+func invEdsNeedsPush(req *model.PushRequest) bool {
+	cu := req.ConfigsUpdated
+	return verif.Forall(func(k model.ConfigKey) bool {
+		return !(cuHas(req, k) && verif.Visited(cu, k)) || skippedEdsConfigs.Contains(k.Kind)
+	})
+}
+
+func ndsSkipped(k kind.Kind) bool {
+	_, f := skippedNdsConfigs[k]
+	return f
+}
+
+func ndsDecision(req *model.PushRequest, proxy *model.Proxy) bool {
+	if d, ok := decidedUpFront(req, proxy); ok {
+		return d
+	}
+	return verif.Exists(func(k model.ConfigKey) bool { return cuHas(req, k) && !ndsSkipped(k.Kind) })
+}
+
+//verif:contract ndsNeedsPush
+//verif:prop C01 C02
+func ctNdsNeedsPush(req *model.PushRequest, proxy *model.Proxy) {
+	verif.Requires("proxy-present", proxy != nil)
+	push := ndsNeedsPush(req, proxy)
+	verif.Ensures("decision", push == verif.Old(func() bool { return ndsDecision(req, proxy) }))
+	verif.Ensures("forced-always-pushes", req == nil || !verif.Old(func() bool { return req.Forced }) || proxy.Type == model.Ztunnel || push)
+	verif.Ensures("input-request-untouched", req == nil || model.VerifRequestUntouched(req))
+}
+
+//verif:invariant ndsNeedsPush 1
+func invNdsNeedsPush(req *model.PushRequest) bool {
+	cu := req.ConfigsUpdated
+	return verif.Forall(func(k model.ConfigKey) bool {
+		return !(cuHas(req, k) && verif.Visited(cu, k)) || ndsSkipped(k.Kind)
+	})
+}
+
+// headlessOnlyRequest: nothing but headless-endpoint notifications (sole reason, only ServiceEntry keys).
+func headlessOnlyRequest(req *model.PushRequest) bool {
+	return req.Reason.Has(model.HeadlessEndpointUpdate) && len(req.Reason) == 1 && model.VerifAllKind(req.ConfigsUpdated, kind.ServiceEntry)
+}
+
+// rdsRelevant: a changed key of this kind matters for the routes of this proxy.
+func rdsRelevant(k model.ConfigKey, proxy *model.Proxy) bool {
+	if skippedRdsConfigs.Contains(k.Kind) {
+		return false
+	}
+	return k.Kind != kind.Gateway || proxy.Type == model.Router || proxy.IsAmbientEastWestGateway()
+}
+
+func rdsDecision(req *model.PushRequest, proxy *model.Proxy) bool {
+	if d, ok := decidedUpFront(req, proxy); ok {
+		return d
+	}
+	if proxy.Type == model.Waypoint && cdsWaypointRule(req, proxy) {
+		return true
+	}
+	if headlessOnlyRequest(req) {
+		return false
+	}
+	return verif.Exists(func(k model.ConfigKey) bool { return cuHas(req, k) && rdsRelevant(k, proxy) })
+}
+
+//verif:contract rdsNeedsPush
+//verif:prop C01 C02
+func ctRdsNeedsPush(req *model.PushRequest, proxy *model.Proxy) {
+	verif.Requires("proxy-present", proxy != nil)
+	// a fact about the skip table (it is a fixed package-level set; ServiceEntry changes always matter for routes)
+	verif.Requires("service-entries-are-not-skipped-for-routes", !skippedRdsConfigs.Contains(kind.ServiceEntry))
+	push := rdsNeedsPush(req, proxy)
+	verif.Ensures("decision", push == verif.Old(func() bool { return rdsDecision(req, proxy) }))
+	verif.Ensures("forced-always-pushes", req == nil || !verif.Old(func() bool { return req.Forced }) || proxy.Type == model.Ztunnel || push)
+	verif.Ensures("input-request-untouched", req == nil || model.VerifRequestUntouched(req))
+}
+
+//verif:invariant rdsNeedsPush 1
+func invRdsNeedsPush(req *model.PushRequest, proxy *model.Proxy, headlessOnly, sawServiceEntry bool) bool {
+	cu := req.ConfigsUpdated
+	seen := func(k model.ConfigKey) bool { return cuHas(req, k) && verif.Visited(cu, k) }
+	h0 := req.Reason.Has(model.HeadlessEndpointUpdate) && len(req.Reason) == 1
+	allSE := verif.Forall(func(k model.ConfigKey) bool { return !seen(k) || k.Kind == kind.ServiceEntry })
+	someSE := verif.Exists(func(k model.ConfigKey) bool { return seen(k) && k.Kind == kind.ServiceEntry })
+	return !skippedRdsConfigs.Contains(kind.ServiceEntry) && model.VerifRequestUntouched(req) &&
+		(!headlessOnly || (h0 && allSE)) &&
+		(headlessOnly || !h0 || !allSE) &&
+		sawServiceEntry == (h0 && someSE) &&
+		// nothing seen so far calls for a push on its own (a ServiceEntry does, unless it was deferred)
+		verif.Forall(func(k model.ConfigKey) bool {
+			return !seen(k) || !rdsRelevant(k, proxy) || (h0 && k.Kind == kind.ServiceEntry)
+		})
+}
+
+func ldsRelevant(k model.ConfigKey, proxy *model.Proxy, req *model.PushRequest) bool {
+	if skippedLdsConfigs[proxy.Type].Contains(k.Kind) {
+		return false
+	}
+	return !(k.Kind == kind.PeerAuthentication && k.Namespace != proxy.ConfigNamespace && k.Namespace != req.Push.Mesh.RootNamespace)
+}
+
+func ldsHeadlessOnly(req *model.PushRequest, proxy *model.Proxy) bool {
+	return proxy.Type == model.Router && headlessOnlyRequest(req)
+}
+
+func ldsDecision(req *model.PushRequest, proxy *model.Proxy) bool {
+	if d, ok := decidedUpFront(req, proxy); ok {
+		return d
+	}
+	if proxy.Type == model.Waypoint && cdsWaypointRule(req, proxy) {
+		return true
+	}
+	if ldsHeadlessOnly(req, proxy) {
+		return false
+	}
+	return verif.Exists(func(k model.ConfigKey) bool { return cuHas(req, k) && ldsRelevant(k, proxy, req) })
+}
+
+//verif:contract ldsNeedsPush
+//verif:prop C01 C02
+//verif:nosafety
+func ctLdsNeedsPush(proxy *model.Proxy, req *model.PushRequest) {
+	verif.Requires("proxy-present", proxy != nil)
+	verif.Requires("service-entries-are-not-skipped-for-listeners", !skippedLdsConfigs[proxy.Type].Contains(kind.ServiceEntry))
+	push := ldsNeedsPush(proxy, req)
+	verif.Ensures("decision", push == verif.Old(func() bool { return ldsDecision(req, proxy) }))
+	verif.Ensures("forced-always-pushes", req == nil || !verif.Old(func() bool { return req.Forced }) || proxy.Type == model.Ztunnel || push)
+	verif.Ensures("input-request-untouched", req == nil || model.VerifRequestUntouched(req))
+}
+
+//verif:invariant ldsNeedsPush 1
+func invLdsNeedsPush(req *model.PushRequest, proxy *model.Proxy, headlessOnly, sawServiceEntry bool) bool {
+	cu := req.ConfigsUpdated
+	seen := func(k model.ConfigKey) bool { return cuHas(req, k) && verif.Visited(cu, k) }
+	h0 := proxy.Type == model.Router && req.Reason.Has(model.HeadlessEndpointUpdate) && len(req.Reason) == 1
+	allSE := verif.Forall(func(k model.ConfigKey) bool { return !seen(k) || k.Kind == kind.ServiceEntry })
+	someSE := verif.Exists(func(k model.ConfigKey) bool { return seen(k) && k.Kind == kind.ServiceEntry })
+	return !skippedLdsConfigs[proxy.Type].Contains(kind.ServiceEntry) && model.VerifRequestUntouched(req) &&
+		(!headlessOnly || (h0 && allSE)) &&
+		(headlessOnly || !h0 || !allSE) &&
+		sawServiceEntry == (h0 && someSE) &&
+		verif.Forall(func(k model.ConfigKey) bool {
+			return !seen(k) || !ldsRelevant(k, proxy, req) || (h0 && k.Kind == kind.ServiceEntry)
+		})
+}
+
+// From the statement (C02): merging notifications never turns a needed push into a skip - for every type.
+// (The CDS instance is lemmaCdsMergedRequestNeverWeaker.)
+//
+//verif:lemma
+//verif:prop C01 C02
+func lemmaEdsMergedRequestNeverWeaker(r1, r2 *model.PushRequest, proxy *model.Proxy) {
+	verif.Requires("requests-and-proxy-present", r1 != nil && r2 != nil && proxy != nil)
+	verif.Requires("notifications-carry-a-reason", len(r1.Reason) > 0 && len(r2.Reason) > 0)
+	verif.Requires("reason-counts-positive", verif.Forall(func(k model.TriggerReason) bool {
+		c1, in1 := r1.Reason[k]
+		c2, in2 := r2.Reason[k]
+		return (!in1 || c1 > 0) && (!in2 || c2 > 0)
+	}))
+	m := r1.CopyMerge(r2)
+	verif.Lemma("merged-keys-cover-both", verif.Forall(func(k model.ConfigKey) bool { return cuHas(m, k) == (cuHas(r1, k) || cuHas(r2, k)) }))
+	verif.Lemma("merged-forced-and-waypoints", m.Forced == (r1.Forced || r2.Forced) &&
+		verif.Forall(func(r model.WaypointReference) bool { return wuHas(m, r) == (wuHas(r1, r) || wuHas(r2, r)) }))
+	d1, d2, dm := edsDecision(r1, proxy), edsDecision(r2, proxy), edsDecision(m, proxy)
+	verif.Lemma("decision-monotone", (!d1 || dm) && (!d2 || dm))
+}
+
+//verif:lemma
+//verif:prop C01 C02
+func lemmaNdsMergedRequestNeverWeaker(r1, r2 *model.PushRequest, proxy *model.Proxy) {
+	verif.Requires("requests-and-proxy-present", r1 != nil && r2 != nil && proxy != nil)
+	verif.Requires("notifications-carry-a-reason", len(r1.Reason) > 0 && len(r2.Reason) > 0)
+	verif.Requires("reason-counts-positive", verif.Forall(func(k model.TriggerReason) bool {
+		c1, in1 := r1.Reason[k]
+		c2, in2 := r2.Reason[k]
+		return (!in1 || c1 > 0) && (!in2 || c2 > 0)
+	}))
+	m := r1.CopyMerge(r2)
+	verif.Lemma("merged-keys-cover-both", verif.Forall(func(k model.ConfigKey) bool { return cuHas(m, k) == (cuHas(r1, k) || cuHas(r2, k)) }))
+	verif.Lemma("merged-forced-and-waypoints", m.Forced == (r1.Forced || r2.Forced) &&
+		verif.Forall(func(r model.WaypointReference) bool { return wuHas(m, r) == (wuHas(r1, r) || wuHas(r2, r)) }))
+	d1, d2, dm := ndsDecision(r1, proxy), ndsDecision(r2, proxy), ndsDecision(m, proxy)
+	verif.Lemma("decision-monotone", (!d1 || dm) && (!d2 || dm))
+}
+
+//verif:lemma
+//verif:prop C01 C02
+func lemmaRdsMergedRequestNeverWeaker(r1, r2 *model.PushRequest, proxy *model.Proxy) {
+	verif.Requires("requests-and-proxy-present", r1 != nil && r2 != nil && proxy != nil)
+	verif.Requires("notifications-carry-a-reason", len(r1.Reason) > 0 && len(r2.Reason) > 0)
+	verif.Requires("reason-counts-positive", verif.Forall(func(k model.TriggerReason) bool {
+		c1, in1 := r1.Reason[k]
+		c2, in2 := r2.Reason[k]
+		return (!in1 || c1 > 0) && (!in2 || c2 > 0)
+	}))
+	m := r1.CopyMerge(r2)
+	verif.Lemma("merged-keys-cover-both", verif.Forall(func(k model.ConfigKey) bool { return cuHas(m, k) == (cuHas(r1, k) || cuHas(r2, k)) }))
+	verif.Lemma("merged-forced-and-waypoints", m.Forced == (r1.Forced || r2.Forced) &&
+		verif.Forall(func(r model.WaypointReference) bool { return wuHas(m, r) == (wuHas(r1, r) || wuHas(r2, r)) }))
+	hl := model.HeadlessEndpointUpdate
+	verif.Lemma("merged-reason-keys", verif.Forall(func(k model.TriggerReason) bool {
+		_, in := m.Reason[k]
+		_, in1 := r1.Reason[k]
+		_, in2 := r2.Reason[k]
+		return in == (in1 || in2) && m.Reason[k] == r1.Reason[k]+r2.Reason[k]
+	}))
+	verif.Lemma("single-merged-reason-is-each-one's-single-reason", !(len(m.Reason) == 1 && m.Reason.Has(hl)) ||
+		(len(r1.Reason) == 1 && r1.Reason.Has(hl) && len(r2.Reason) == 1 && r2.Reason.Has(hl)))
+	verif.Lemma("merged-headless-only-if-both-are", !headlessOnlyRequest(m) || (headlessOnlyRequest(r1) && headlessOnlyRequest(r2)))
+	d1, d2, dm := rdsDecision(r1, proxy), rdsDecision(r2, proxy), rdsDecision(m, proxy)
+	verif.Lemma("decision-monotone", (!d1 || dm) && (!d2 || dm))
+}
+
+//verif:lemma
+//verif:prop C01 C02
+func lemmaLdsMergedRequestNeverWeaker(r1, r2 *model.PushRequest, proxy *model.Proxy) {
+	verif.Requires("requests-and-proxy-present", r1 != nil && r2 != nil && proxy != nil)
+	verif.Requires("notifications-carry-a-reason", len(r1.Reason) > 0 && len(r2.Reason) > 0)
+	verif.Requires("reason-counts-positive", verif.Forall(func(k model.TriggerReason) bool {
+		c1, in1 := r1.Reason[k]
+		c2, in2 := r2.Reason[k]
+		return (!in1 || c1 > 0) && (!in2 || c2 > 0)
+	}))
+	m := r1.CopyMerge(r2)
+	verif.Lemma("merged-keys-cover-both", verif.Forall(func(k model.ConfigKey) bool { return cuHas(m, k) == (cuHas(r1, k) || cuHas(r2, k)) }))
+	verif.Lemma("merged-forced-and-waypoints", m.Forced == (r1.Forced || r2.Forced) &&
+		verif.Forall(func(r model.WaypointReference) bool { return wuHas(m, r) == (wuHas(r1, r) || wuHas(r2, r)) }))
+	hl := model.HeadlessEndpointUpdate
+	verif.Lemma("merged-reason-keys", verif.Forall(func(k model.TriggerReason) bool {
+		_, in := m.Reason[k]
+		_, in1 := r1.Reason[k]
+		_, in2 := r2.Reason[k]
+		return in == (in1 || in2) && m.Reason[k] == r1.Reason[k]+r2.Reason[k]
+	}))
+	verif.Lemma("single-merged-reason-is-each-one's-single-reason", !(len(m.Reason) == 1 && m.Reason.Has(hl)) ||
+		(len(r1.Reason) == 1 && r1.Reason.Has(hl) && len(r2.Reason) == 1 && r2.Reason.Has(hl)))
+	verif.Lemma("merged-headless-only-if-both-are", !headlessOnlyRequest(m) || (headlessOnlyRequest(r1) && headlessOnlyRequest(r2)))
+	// the snapshot (mesh root namespace) the PeerAuthentication rule of LDS looks at is the same for both
+	verif.Requires("same-snapshot", r1.Push == r2.Push)
+	verif.Lemma("merged-snapshot", m.Push == r1.Push)
+	d1, d2, dm := ldsDecision(r1, proxy), ldsDecision(r2, proxy), ldsDecision(m, proxy)
+	verif.Lemma("decision-monotone", (!d1 || dm) && (!d2 || dm))
+}
